@@ -400,19 +400,22 @@ int main(int argc, char** argv) {
   {
     const int L2 = T ? 4 : 3;
     const int MB = NND::maxbucket;            // 10 for dist_t = double
-    ctx.bound("nn-l1.points", "every sequence of length 0.." + fmti(L2) + " over the 9 points of {0,1,2}^2, dist = |dx|+|dy| (double)");
+    // coordinates chosen so that every |dx|+|dy| is exact in double (a true metric) while 1+2^-52 needs all 17 digits
+    // in the text form of Save
+    const double CO[3] = {0, 0.375, 1 + std::ldexp(1.0, -52)};
+    ctx.bound("nn-l1.points", "every sequence of length 0.." + fmti(L2) + " over the 9 points of {0, 0.375, 1+2^-52}^2, dist = |dx|+|dy| (double, all sums exact)");
     ctx.bound("nn-l1.bucket", "bucket in {0,1,3," + fmti(MB) + "}");
-    ctx.bound("nn-l1.query", "11 queries (the 9 grid points, (-1,-1), (3,1)) x k in {1,2,3,5} x maxdist in {DBL_MAX(default),1,2} x mindist in {-1,0,1} x exhaustive in {0,1}");
+    ctx.bound("nn-l1.query", "11 queries (the 9 grid points, (-0.5,-0.5), (1.5,0.375)) x k in {1,2,3,5} x maxdist in {DBL_MAX(default),0.5,1+2^-52} x mindist in {-1,0,0.375} x exhaustive in {0,1}");
     SearchCheck<NND, P2, double, DistL1> sc{ctx, "l1"};
-    sc.maxdists = {std::numeric_limits<double>::max(), 1, 2}; sc.mindists = {-1, 0, 1}; sc.tols = {0}; sc.ks = {1, 2, 3, 5};
+    sc.maxdists = {std::numeric_limits<double>::max(), 0.5, CO[2]}; sc.mindists = {-1, 0, 0.375}; sc.tols = {0}; sc.ks = {1, 2, 3, 5};
     std::vector<P2> qs; std::vector<std::string> qd;
-    for (int i = 0; i < 9; ++i) { qs.push_back({double(i / 3), double(i % 3)}); }
-    qs.push_back({-1, -1}); qs.push_back({3, 1});
+    for (int i = 0; i < 9; ++i) { qs.push_back({CO[i / 3], CO[i % 3]}); }
+    qs.push_back({-0.5, -0.5}); qs.push_back({1.5, 0.375});
     for (auto& q : qs) qd.push_back("(" + mc::fmt(q.x) + "," + mc::fmt(q.y) + ")");
     for (int len = 0; len <= L2; ++len) for (long long idx = 0; idx < pw(9, len); ++idx) {
       if (!ctx.take()) continue;
       std::vector<P2> pts(len); std::string pd = "[";
-      { long long t = idx; for (int i = len - 1; i >= 0; --i) { int c = int(t % 9); t /= 9; pts[i] = {double(c / 3), double(c % 3)}; } }
+      { long long t = idx; for (int i = len - 1; i >= 0; --i) { int c = int(t % 9); t /= 9; pts[i] = {CO[c / 3], CO[c % 3]}; } }
       for (int i = 0; i < len; ++i) pd += (i ? "," : "") + std::string("(") + mc::fmt(pts[i].x) + "," + mc::fmt(pts[i].y) + ")";
       pd += "]";
       for (int bucket : {0, 1, 3, MB}) {
